@@ -412,6 +412,11 @@ func main() {
 		}
 		fin.Close()
 		fout.Close()
+		if res.Extra == nil {
+			res.Extra = map[string]interface{}{}
+		}
+		res.Extra["wf_tokens_checked"] = wfChecked
+		res.Extra["wf_tokens_violations"] = wfViolations
 	}
 	distinct := map[uint64]struct{}{}
 	bySig := map[string][]int{}
@@ -510,6 +515,8 @@ func main() {
 		"malformed_stream_cases":        malformed,
 		"known_shapes_generated":        *known,
 		"workers":                       workers,
+		"wf_tokens_checked":             wfChecked,
+		"wf_tokens_violations":          wfViolations,
 	}
 	if err := res.Write(filepath.Join(*out, "result.json")); err != nil {
 		fmt.Fprintln(os.Stderr, "xmloracle:", err)
